@@ -18,6 +18,10 @@ import time
 import traceback
 
 HERE = os.path.dirname(os.path.dirname(os.path.abspath(__file__)))
+# When the checks are pointed at a scratch copy (mutant harness), evidence and violation replays must not
+# overwrite those of the real tree.
+ALT = os.path.realpath(os.environ.get("VERIF_REPO", "/repo")) != "/repo"
+OUT = os.path.join(HERE, ".cache", "alt-tree") if ALT else HERE
 MAX_DIGESTS = 300_000
 
 
@@ -483,7 +487,7 @@ def run_check(prop, tier, seed, only=None, budget=None, jobs_max=None):
         else:
             lines.append(f"KNOWN-FINDING: property={prop} {e['id']}: {e['what']} (hits this run: {hits})")
     seen = set()
-    vdir = os.path.join(HERE, "replays", prop)
+    vdir = os.path.join(OUT, "replays", prop)
     for v in violations:
         key = (v["part"], v["tag"])
         if key in seen:
@@ -526,8 +530,8 @@ def run_check(prop, tier, seed, only=None, budget=None, jobs_max=None):
         "violations": len(seen),
     }
     if rc != 2:
-        os.makedirs(os.path.join(HERE, "evidence"), exist_ok=True)
-        with open(os.path.join(HERE, "evidence", f"{prop}.json"), "w") as f:
+        os.makedirs(os.path.join(OUT, "evidence"), exist_ok=True)
+        with open(os.path.join(OUT, "evidence", f"{prop}.json"), "w") as f:
             json.dump(ev, f, indent=1, default=jdefault)
     for ln in lines:
         print(ln)
